@@ -642,6 +642,8 @@ func (e *engine) step(ws []string, o *Out) string {
 		return "ok"
 	case "hgossip":
 		return e.hgossip(ws, o)
+	case "hround":
+		return e.hround(ws, o)
 	case "hdeliver":
 		return e.hdeliver(ws, o)
 	case "hjoin", "hjoinlost", "hleave":
@@ -834,6 +836,68 @@ func (e *engine) hgossip(ws []string, o *Out) string {
 		o.Count("hgossip:truncated")
 	}
 	return ws[0] + " " + e.sect(g, evPlain, o) + e.showSent(sent)
+}
+
+// hround: one real Gossip.gossipRound().  The peers are drawn by the code itself (math/rand), so
+// the line shows the two candidate sets and the number of requests; the oracle checks every
+// request against them.  The datagrams are dropped (lost packets).
+func (e *engine) hround(ws []string, o *Out) string {
+	g, ok := e.nodes[Unhx(ws[1])]
+	if !ok {
+		return "err no-node"
+	}
+	max := Atoi(parseKV("max=", ws[2]))
+	addrOf := func(ms []pg.NodeMetadata) (ids []string, addrs map[string]string) {
+		addrs = map[string]string{}
+		for _, m := range ms {
+			ids = append(ids, Hx(m.ID))
+			addrs[m.Addr] = m.ID
+		}
+		sort.Strings(ids)
+		return
+	}
+	live, liveAddr := addrOf(g.st.LiveNodes())
+	un, unAddr := addrOf(g.st.UnreachableNodes())
+	g.cfg.MaxPacketSize = max
+	g.pc.take()
+	var err error
+	if !guarded(func() { err = pg.VGossipRound(g.g) }) {
+		return hang(o, "Gossip.gossipRound")
+	}
+	out := g.pc.take()
+	tail := " live=[" + strings.Join(live, ",") + "] unreach=[" + strings.Join(un, ",") + "] sent=" + fmt.Sprint(len(out))
+	if err != nil {
+		if !strings.Contains(err.Error(), "too small for header") {
+			o.Fail("ANY", "gossip-round-error", err.Error())
+		}
+		o.Count("hround:header-too-big")
+		return ws[0] + " " + e.sect(g, evPlain, o) + tail
+	}
+	want := 0
+	if len(live) > 0 {
+		want++
+	}
+	if len(un) > 0 {
+		want++
+	}
+	o.Count("oracle:C03:round")
+	if len(out) != want {
+		o.Fail("C03", "round-request-count", fmt.Sprintf("live=%d unreachable=%d requests=%d", len(live), len(un), len(out)))
+	}
+	for i, dg := range out {
+		set, name := liveAddr, "live"
+		if (len(live) == 0 && i == 0) || i == 1 {
+			set, name = unAddr, "unreachable"
+		}
+		if _, ok := set[dg.to]; !ok {
+			// C11: an unreachable peer keeps being probed, a left one is not contacted as live
+			o.Fail("C03", "round-target-not-"+name, fmt.Sprintf("request %d of %s went to an address outside the %s set", i, Hx(g.id), name))
+			o.Fail("C11", "round-target-not-"+name, fmt.Sprintf("request %d of %s went to an address outside the %s set", i, Hx(g.id), name))
+		}
+		e.checkDigestDatagram(g, dg, max, true, dg.to, o)
+	}
+	o.Count(fmt.Sprintf("hround:sent=%d", len(out)))
+	return ws[0] + " " + e.sect(g, evPlain, o) + tail
 }
 
 func (e *engine) hdeliver(ws []string, o *Out) string {
@@ -1633,6 +1697,10 @@ func (e *engine) genCase(r *rand.Rand, c int, tier string, w *bufio.Writer) {
 					emit("hjoin %s %s", Hx(id), Hx(m))
 				}
 				continue
+			}
+			if r.Intn(5) == 0 {
+				// a whole round: the code draws its own peers (one live, one unreachable)
+				emit("hround %s max=%d", Hx(id), gossipMax(g))
 			}
 			emit("hgossip %s %s max=%d", Hx(id), Hx(Pick(r, ko)), gossipMax(g))
 		case x < 82:
